@@ -516,6 +516,9 @@ class SymSeries(_RowsMixin, SymBase):
             raise Unsupported("shift freq")
         return self._with(col=_shift(self.cells(), self.valid, self.order, periods))
 
+    def rolling(self, window, min_periods=None, center=False, win_type=None, **kw):
+        return SymRolling(self, window, min_periods, center, win_type, **kw)
+
     def diff(self, periods=1):
         sh = self.shift(periods)
         out = [cell_binop("sub", a, b) for a, b in zip(self.cells(), sh.cells())]
@@ -669,6 +672,82 @@ def _shift(cells, valid, order, periods):
         found = Or(*hit)
         out.append(Cell(Sum(v), Or(Not(found), *null_found), "f"))
     return Col.from_cells(out, "f")
+
+
+def _rolling(cells, valid, order, window, min_periods, how):
+    """fixed-size trailing window over the row order: aggregate of the non-null values among the last `window` rows,
+    NaN when fewer than `min_periods` of them are non-null"""
+    n = len(cells)
+    r = ranks(valid, order)
+    out = []
+    for i in range(n):
+        inwin = [And(valid[j], r[j] <= r[i], r[j] > r[i] - window, Not(cells[j].null)) for j in range(n)]
+        cnt = Sum([If(w, z3.IntVal(1), z3.IntVal(0)) for w in inwin])
+        null = cnt < min_periods
+        if how == "count":
+            # pandas counts the non-null values but applies min_periods to the number of rows in the window
+            nrows = Sum([If(And(valid[j], r[j] <= r[i], r[j] > r[i] - window), z3.IntVal(1), z3.IntVal(0)) for j in range(n)])
+            out.append(Cell(cnt, nrows < min_periods, "f"))
+            continue
+        if how in ("sum", "mean"):
+            val = Sum([If(w, cells[j].num(), z3.IntVal(0)) for j, w in enumerate(inwin)])
+            if how == "mean":
+                c = cell_binop("truediv", Cell(val, F, "f"), Cell(cnt, F, "i"))
+                out.append(Cell(c.val, Or(null, c.null), "f"))
+            else:
+                out.append(Cell(val, null, "f"))
+            continue
+        if how in ("min", "max"):
+            has, cur = F, z3.IntVal(0)
+            for j, w in enumerate(inwin):
+                if is_f(w):
+                    continue
+                x = cells[j].num()
+                better = (x < cur) if how == "min" else (x > cur)
+                cur = If(w, If(has, If(better, x, cur), x), cur)
+                has = Or(has, w)
+            out.append(Cell(cur, null, "f"))
+            continue
+        raise Unsupported(f"rolling {how}")
+    return Col.from_cells(out, "f")
+
+
+class SymRolling:
+    def __init__(self, obj, window, min_periods=None, center=False, win_type=None, **kw):
+        if not isinstance(window, int) or center or win_type is not None or kw.get("on") is not None or kw.get("closed") is not None or kw.get("axis", 0) not in (0, "index"):
+            raise Unsupported("rolling options")
+        self.obj, self.window, self.given_min_periods = obj, window, min_periods
+        self.min_periods = window if min_periods is None else min_periods
+
+    def _agg(self, how):
+        obj = self.obj
+        order = None if isinstance(obj.order, str) else obj.order
+        if isinstance(obj.order, str):
+            raise Unsupported("row order is unspecified here (after a shuffle / join): order-dependent operation not modelled")
+        if isinstance(obj, SymSeries):
+            mp = self.min_periods
+            return obj._with(col=_rolling(obj.cells(), obj.valid, order, self.window, mp, how))
+        return obj._map_cols(lambda s: SymRolling(s, self.window, self.given_min_periods)._agg(how))
+
+    def sum(self, *a, **kw):
+        return self._agg("sum")
+
+    def mean(self, *a, **kw):
+        return self._agg("mean")
+
+    def count(self, *a, **kw):
+        return self._agg("count")
+
+    def min(self, *a, **kw):
+        return self._agg("min")
+
+    def max(self, *a, **kw):
+        return self._agg("max")
+
+    def __getattr__(self, name):
+        if name.startswith("_"):
+            raise AttributeError(name)
+        raise Unsupported(f"rolling {name}")
 
 
 def _fill(cells, valid, order, forward):
@@ -1388,6 +1467,9 @@ class SymFrame(_RowsMixin, SymBase):
 
     def shift(self, periods=1, freq=None, **kw):
         return self._map_cols(lambda s: s.shift(periods, freq))
+
+    def rolling(self, window, min_periods=None, center=False, win_type=None, **kw):
+        return SymRolling(self, window, min_periods, center, win_type, **kw)
 
     def diff(self, periods=1, **kw):
         return self._map_cols(lambda s: s.diff(periods))
